@@ -87,16 +87,37 @@ structure Cfg where
   rdTs : Bytes → Option (Int × Bytes)
   /-- the bounds checks of fix C34 are present -/
   guard : Bool
+  /-- arithmetic of the record-count check: 0 = as coded, in the 64-bit `int` after widening;
+  k > 0 = the variant `recordCount*k > int32(len(recordsData))` computed in int32 (the product wraps) -/
+  cnt32 : Nat
 
 /-- iceberg decoder (with fix C34) -/
-def cfgIceberg : Cfg := ⟨readVarint64, readVarint64, true⟩
+def cfgIceberg : Cfg := ⟨readVarint64, readVarint64, true, 0⟩
 /-- sql decoder (with fixes C07 and C34) -/
-def cfgSql : Cfg := ⟨readVarint32Sql, readVarint64, true⟩
+def cfgSql : Cfg := ⟨readVarint32Sql, readVarint64, true, 0⟩
 /-- pre-fix variants, kept to recognise a regression -/
-def cfgIcebergOld : Cfg := ⟨readVarint64, readVarint64, false⟩
-def cfgSqlOld : Cfg := ⟨readVarint32Sql, readVarint32Sql, false⟩
+def cfgIcebergOld : Cfg := ⟨readVarint64, readVarint64, false, 0⟩
+def cfgSqlOld : Cfg := ⟨readVarint32Sql, readVarint32Sql, false, 0⟩
 /-- sql decoder with only the C34 guards (timestamp still read as a 32-bit varint) -/
-def cfgSqlTs32 : Cfg := ⟨readVarint32Sql, readVarint32Sql, true⟩
+def cfgSqlTs32 : Cfg := ⟨readVarint32Sql, readVarint32Sql, true, 0⟩
+
+/-- sql decoder whose record-count check is computed in int32 with multiplier 7
+(`recordCount*7 > int32(len(recordsData))`) — a regression kept to be recognised -/
+def cfgSqlCntMul7 : Cfg := ⟨readVarint32Sql, readVarint64, true, 7⟩
+
+/-- the record-count sanity check of `decodeBatchRecords`, with Go integer widths.
+As coded (`cnt32 = 0`): `int(recordCount) > len(recordsData)` — the int32 header field is widened to the
+64-bit `int` (exact, `wrap64` is the identity on int32 values) and compared with `len`, a non-negative `int`;
+nothing can wrap.  Variant (`cnt32 = k`): `recordCount*k > int32(len(recordsData))` in int32 — the product wraps. -/
+def countExceeds (c : Cfg) (recordCount : Int) (len : Nat) : Bool :=
+  if c.cnt32 = 0 then decide (wrap64 recordCount > (len : Int))
+  else decide (wrap32 (recordCount * c.cnt32) > wrap32 len)
+
+theorem countExceeds_std {c : Cfg} (h0 : c.cnt32 = 0) {rc : Int} (hi : InI32 rc) (len : Nat) :
+    countExceeds c rc len = decide (rc > (len : Int)) := by
+  unfold countExceeds
+  have h64 : InI64 rc := by unfold InI32 at hi; unfold InI64; omega
+  simp [h0, wrap64_of_in h64]
 
 /-- `io.ReadFull(reader, buf)` with `len(buf) = n` -/
 def readN (n : Nat) (r : Bytes) : Option (Bytes × Bytes) :=
